@@ -917,8 +917,28 @@ pub(crate) fn m_frag_nested() {
     assert!(pos("#a") < pos("text") && pos("#c") < pos("text") && pos("#q") < pos("deep"));
 }
 
+/// Link references are numbered 1..n in document order across containers; the footnote list follows; nothing when disabled.
+pub(crate) fn m_link_footnotes() {
+    let _which: u8 = kani::any();
+    let html: &[u8] = b"<p><a href=\"u1\">one</a></p><ul><li><a href=\"u2\">two</a></li></ul><blockquote><a href=\"u3\">three</a></blockquote><table><tr><td><a href=\"u4\">four</a></td><td><a href=\"u5\">five</a></td></tr></table><h2><a href=\"u6\">six</a></h2>";
+    let on = crate::config::plain().link_footnotes(true).string_from_read(html, 80).expect("renders");
+    let mut last = 0usize;
+    for (k, w) in ["one", "two", "three", "four", "five", "six"].iter().enumerate() {
+        let marker = format!("{}[{}]", w, k + 1);
+        let at = on.find(&marker);
+        assert!(at.is_some(), "reference {:?} missing in {:?}", marker, on);
+        assert!(at.unwrap() >= last, "references out of order in {:?}", on);
+        last = at.unwrap();
+        let entry = format!("[{}]: u{}", k + 1, k + 1);
+        assert!(on.matches(&entry).count() == 1, "footnote {:?} missing or duplicated in {:?}", entry, on);
+        assert!(on.find(&entry).unwrap() > on.find("six[6]").unwrap_or(0));
+    }
+    let off = crate::config::plain().link_footnotes(false).string_from_read(html, 80).expect("renders");
+    assert!(!off.contains('[') && !off.contains("]: "), "references although disabled: {:?}", off);
+}
+
 crate::verif_common::registry! {
-    m_strike_affix, m_frag_nested, m_dom_children, m_cell_unwind, m_routes_width, m_insert_child, m_ol_numbering, m_prefix_width, m_into_cells, m_table_col_width, m_table_alloc,
+    m_link_footnotes, m_strike_affix, m_frag_nested, m_dom_children, m_cell_unwind, m_routes_width, m_insert_child, m_ol_numbering, m_prefix_width, m_into_cells, m_table_col_width, m_table_alloc,
     r1_cascade_pairs, r1_cascade_triples, r2_specificity_order, r2_specificity_add,
     r3_ol_prefix_total, r4_ol_prefix_is_max,
     r9_tree_map_reduce_order, r12_config_plumbing, r12_width_zero,
